@@ -351,12 +351,17 @@ class FnTr3(FnTr2):
         FnTr2.__init__(self, world, file, impl, trait, name, it, lean, lit_choice)
         self.body_parser = Parser3(self.body_parser.t, self.body_parser.i)
         for x in self.idents:
-            if x in RESERVED3 or x.startswith("rec__"):
+            if x == "fuel" or x.startswith("rec__"):
                 raise Unsupported("identifier `%s` clashes with a name used by the generated Lean" % x)
+
+    def bind(self, name, ty):
+        if name in RESERVED3:
+            raise Unsupported("local name `%s` clashes with a name used by the generated Lean" % name)
+        FnTr2.bind(self, name, ty)
 
     # -- signature: rs2lean2's parse_sig with the phase-3 type parser
     def parse_sig(self, it):
-        p = Parser3(it["toks"])
+        p = Parser3(list(it["toks"]))       # a copy: splitting a `>>` token rewrites the list
         self.generics = {}
         if p.isp("<"):
             inner = p.skip_generics()
@@ -571,11 +576,15 @@ class FnTr3(FnTr2):
                 rhs = call
             elif mode == "unwrap":
                 rhs = "Rs.unwrapRes (%s)" % call
+            elif mode == "orelse":
+                rhs = None
             else:
                 raise Unsupported("the Result of %s (a function with `&mut` parameters) must be used with `?`, "
                                   "`.unwrap()` or returned" % sig["lean"])
         else:
             rhs = call
+        if mode == "orelse":
+            return ls + ["let %s ← Rs.okQ (%s) text__" % (pat, call)] + stores, r, rv
         return ls + ["let %s ← Ctl.ofRes (%s)" % (pat, rhs)] + stores, r, rv
 
     def ex_try(self, e, want):
@@ -803,8 +812,10 @@ class FnTr3(FnTr2):
         if len(hit) != 1:
             raise Unsupported("translator error: loop call site not found")
         i = hit[0]
-        lines[i] = lines[i].replace("(%s)" % aux, "(%s %s)" % (aux, given)).replace("(%s " % aux, "(%s %s " % (aux, given), 1) \
-            if ("(%s)" % aux) in lines[i] else lines[i].replace("(%s " % aux, "(%s %s " % (aux, given), 1)
+        if ("(%s)" % aux) in lines[i]:
+            lines[i] = lines[i].replace("(%s)" % aux, "(%s %s)" % (aux, given), 1)
+        else:
+            lines[i] = lines[i].replace("(%s " % aux, "(%s %s " % (aux, given), 1)
         return lines
 
     # -- the text fallback of `from_slice`
@@ -830,18 +841,10 @@ class FnTr3(FnTr2):
             if b1.kind == "block" and not b1.stmts and b1.tail is not None:
                 b1 = b1.tail
             ok = ok and b1.kind == "call" and b1.f.kind == "path" and b1.f.segs == ["parse_value"]
-        if not ok or not self.needs_mode(self.callee_sig(t.scrut)):
+        if not ok:
             raise Unsupported("expected `match <decoder call> { Ok(v) => Ok(v), Err(_) => parse_value(..) }`")
         self.text_param = "text__"
         return N("block", stmts=body.stmts, tail=N("res_or_text", e=t.scrut))
-
-    def tail_res_or_text(self, e):
-        """`match r { Ok(v) => Ok(v), Err(_) => text__ }` for a call `r` whose `&mut` places die here"""
-        sig = self.callee_sig(e)
-        for pn in sig.get("mut", []):
-            pass
-        self.call_mode = "peek"
-        raise Unsupported("internal")
 
     # -- whole function
     def translate(self):
@@ -877,8 +880,8 @@ class FnTr3(FnTr2):
                 if d1:
                     raise Unsupported("diverging statement before the fallback")
                 lines += l1
-            sig = self.callee_sig(fallback)
-            saved_ret = self.ret
+            if not self.needs_mode(self.callee_sig(fallback)):
+                raise Unsupported("the scrutinee of the fallback `match` is not a call of a translated decoder method")
             ls, t, ty = self.in_mode("orelse", fallback)
             self.unify(self.ret_value_type(), ty, "returned value")
             lines += ls + [self.mk_ret("ok", t)]
